@@ -188,6 +188,10 @@ func init() {
 			m.opts.ConcCap = v
 		case "prefer_int":
 			m.solver.PreferInt = v != 0
+		case "timerfires":
+			m.opts.MaxTimerFires = v
+		case "switches":
+			m.opts.MaxSwitches = v
 		case "notimers":
 			m.opts.NoTimers = v != 0
 		default:
